@@ -109,6 +109,14 @@ Level2 ==
                /\ k <= c.dl
                /\ c' = [shape |-> 4, dl |-> c.dl, lit0 |-> lit0, k |-> k, m0 |-> m0, lit |-> c.lit, off |-> off, m |-> c.m,
                         tail |-> t, dd |-> dd]
+       \/ \* ... and the second sequence's match reaches back into the dictionary (the decoder must still know where the
+          \* dictionary is after the straddling, self-overlapping copy of the first one)
+          /\ c.shape = 4
+          /\ \E lit0 \in {1, 3}, k \in {1, 5}, m0 \in {8, 20, 40}, into \in {1, 5}, t \in {0, 5, 15, 16, 17, 32, 48}, dd \in {0, 0 - 1} :
+               /\ k <= c.dl
+               /\ into <= c.dl
+               /\ c' = [shape |-> 4, dl |-> c.dl, lit0 |-> lit0, k |-> k, m0 |-> m0, lit |-> c.lit,
+                        off |-> lit0 + m0 + c.lit + into, m |-> c.m, tail |-> t, dd |-> dd]
 
 Next == Level1 \/ Level2
 
